@@ -152,7 +152,7 @@ def correspond(ctx):
     o_cfg = Oracle(ctx, "declared-space-guards")
     guards_oracle(ctx, o_cfg)
     o_lp = Oracle(ctx, "libpass-salts-uniform-and-secret-lengths")
-    for gen in (libpass_salt_cases(), secret_length_cases()):
+    for gen in (libpass_salt_cases(), secret_length_cases(), libpass_hasher_salt_cases(256)):
         for tag, inp, ok, obs, exp in gen:
             o_lp.check(tag, ok, inp, obs, exp)
     return merge(s_help, s_salt, s_len, o_cfg, o_lp, exhaustive=False)
@@ -229,6 +229,27 @@ def libpass_salt_cases():
             yield ("libpass-salt:uniform", inp, ok, {"distinct": len(counts), "most": worst[0], "least": worst[1]}, f"each of the {len(chars) ** length} salts from the same number of source outcomes")
     finally:
         ls.secrets = real
+
+
+def libpass_hasher_salt_cases(n):
+    """the salts the libpass hashers draw themselves: declared size, the format's alphabet, and every symbol of it in use (n·16 symbols per
+    hasher: a symbol missing by chance has probability 64·(63/64)^(16n), below 1e-25 for n = 256)"""
+    from libpass.hashers.sha_crypt import SHA256Hasher, SHA512Hasher
+
+    h64 = set("./0123456789ABCDEFGHIJKLMNOPQRSTUVWXYZabcdefghijklmnopqrstuvwxyz")
+    for cls in (SHA256Hasher, SHA512Hasher):
+        h = cls(rounds=1000)
+        seen, bad, salts = set(), [], set()
+        for _ in range(n):
+            hs = h.hash("")
+            salt = hs.split("$")[-2]
+            salts.add(salt)
+            seen |= set(salt)
+            if len(salt) != 16 or not set(salt) <= h64:
+                bad.append(salt)
+        inp = {"op": "libpass-hasher-salt", "hasher": cls.__name__, "draws": n}
+        yield ("libpass-hasher-salt", inp, not bad and seen == h64 and len(salts) == n,
+               {"malformed": bad[:2], "symbols_never_drawn": "".join(sorted(h64 - seen)), "distinct": len(salts)}, "16 symbols of the crypt alphabet, every symbol in use, no repeats")
 
 
 def secret_length_cases():
@@ -375,6 +396,58 @@ def guards_oracle(ctx, o, first_only=False):
             # no value of a batch is a shifted copy of its neighbour (n·length independent symbols, not length+n−1)
             shifted = any(a[1:] == b[:-1] for a, b in zip(parts, parts[1:]))
             chk("batch-not-sliding-window", len(r) == n and not shifted, {"op": "batch-window", "function": tag, "returns": n}, r, "independent values")
+    # ---- every named character set and word set: over an enumerated source each of the N^L values is produced, each by the same number
+    #      of source outcomes (L = 1, and L = 2 where N^2 stays small); the source counts up on every question, so a generator that
+    #      draws again cannot loop forever
+    class CountingRng:
+        def __init__(self, start):
+            self.v = start
+            self.asks = 0
+
+        def _next(self, n):
+            self.asks += 1
+            if self.asks > 20000:
+                raise RuntimeError("the generator keeps asking the source")
+            r = self.v % n
+            self.v += 1
+            return r
+
+        def randrange(self, a, b=None):
+            if b is None:
+                a, b = 0, a
+            return a + self._next(b - a)
+
+        def getrandbits(self, k):
+            return self._next(1 << k) if k else 0
+
+        def choice(self, seq):
+            return seq[self._next(len(seq))]
+
+        def random(self):
+            return self._next(1 << 30) / (1 << 30)
+
+    import collections
+
+    for kind, names in (("charset", sorted(pwd.default_charsets)), ("wordset", sorted(pwd.default_wordsets))):
+        for nm in names:
+            size = len(pwd.default_charsets[nm]) if kind == "charset" else len(pwd.default_wordsets[nm])
+            for L in (1, 2):
+                if size ** L > (6000 if not ctx.thorough else 70000):
+                    continue
+                inp = {"op": "named-set-reachable", kind: nm, "length": L, "size": size}
+                counts = collections.Counter()
+                try:
+                    for v in range(size ** L):
+                        r = CountingRng(v)
+                        g = pwd.WordGenerator(charset=nm, length=L, rng=r) if kind == "charset" else pwd.PhraseGenerator(wordset=nm, length=L, rng=r, sep="\x00")
+                        counts[g()] += 1
+                    ok = len(counts) == size ** L and set(counts.values()) == {1}
+                    obs = {"distinct": len(counts), "most": counts.most_common(1)[0][1], "declared_entropy": round(g.entropy, 2)}
+                except Exception as e:  # noqa: BLE001
+                    ok, obs = False, type(e).__name__ + ": " + str(e)[:80]
+                chk("named-set-reachable", ok, inp, obs, {"distinct": size ** L, "most": 1})
+        if fails and first_only:
+            return fails
     for N in range(2, 95, 3 if not ctx.thorough else 1):
         chars = "".join(chr(33 + i) for i in range(N))
         for e in (1, 7, 40, 64, 128, 199):
@@ -462,7 +535,7 @@ def search(ctx, broken, seeds):
     fails = guards_oracle(ctx, Oracle(ctx, "search"), first_only=True)
     if fails:
         return fails[0]
-    for gen in (libpass_salt_cases(), secret_length_cases()):
+    for gen in (libpass_salt_cases(), secret_length_cases(), libpass_hasher_salt_cases(256)):
         for tag, inp, ok, obs, exp in gen:
             if not ok:
                 return {"input": inp, "observed": obs, "expected": exp, "check": tag}
